@@ -5,6 +5,7 @@ import (
 	"go/ast"
 	"go/token"
 	"go/types"
+	"strings"
 )
 
 func init() {
@@ -214,4 +215,76 @@ func runC31(c *Ctx) {
 	} else {
 		c.Violated(r2, "Close: failed removal is an error", rm[0].cs.Call.Pos(), "(ok, err) not tested", nil)
 	}
+	r4 := c.Rule("R4", "a writer replaces an entry from its first chunk: a writer value is created with chunkIndex 0 (the field is absent from the constructor's literal, or set from a constant 0 / a parameter that every caller passes the constant 0), and only Write's own increments change it", 2)
+	{
+		ci := w.Field("streamingdata", "writer", "chunkIndex")
+		nLit, bad := 0, []string{}
+		var pos token.Pos
+		for _, f := range w.declaredFuncs("streamingdata") {
+			info := f.Pkg.TypesInfo
+			ast.Inspect(f.Body, func(x ast.Node) bool {
+				cl, ok := x.(*ast.CompositeLit)
+				if !ok {
+					return true
+				}
+				tv := info.Types[cl]
+				nt, _ := tv.Type.(*types.Named)
+				if nt == nil || nt.Obj().Name() != "writer" {
+					return true
+				}
+				nLit++
+				for _, el := range cl.Elts {
+					kv, ok := el.(*ast.KeyValueExpr)
+					if !ok {
+						continue
+					}
+					id, _ := kv.Key.(*ast.Ident)
+					if id == nil || originOf(info.Uses[id]) != types.Object(ci) {
+						continue
+					}
+					if v := info.Types[kv.Value].Value; v != nil && v.String() == "0" {
+						continue
+					}
+					// a parameter: every call site of f must pass the constant 0 there
+					okParam := false
+					if pid, isID := ast.Unparen(kv.Value).(*ast.Ident); isID && f.Obj != nil {
+						sig := f.Obj.Type().(*types.Signature)
+						for pi := 0; pi < sig.Params().Len(); pi++ {
+							if info.Uses[pid] != types.Object(sig.Params().At(pi)) {
+								continue
+							}
+							okParam = true
+							for _, g := range w.allDeclared() {
+								for _, cs := range w.AllSites(g) {
+									if cs.Key == f.Key && pi < len(cs.Call.Args) {
+										if av := cs.In.Pkg.TypesInfo.Types[cs.Call.Args[pi]].Value; av == nil || av.String() != "0" {
+											okParam = false
+											bad = append(bad, fmt.Sprintf("%s passes %s", shortKey(rootOf(cs.In).Key), types.ExprString(cs.Call.Args[pi])))
+											pos = cs.Call.Pos()
+										}
+									}
+								}
+							}
+						}
+					}
+					if !okParam && len(bad) == 0 {
+						bad = append(bad, "chunkIndex initialised with "+types.ExprString(kv.Value))
+						pos = kv.Pos()
+					}
+				}
+				return true
+			})
+			// other writes of the field: increments only
+			for _, ws := range w.writesOf(f, ci, true) {
+				if _, isInc := ws.Stmt.(*ast.IncDecStmt); !isInc {
+					bad = append(bad, "assigned in "+shortKey(f.Key))
+					pos = ws.Pos
+				}
+			}
+		}
+		c.Check(nLit >= 1, r4, "writer literals inventoried", token.NoPos, fmt.Sprintf("%d", nLit), "no writer literal found", nil)
+		c.Check(len(bad) == 0, r4, "a writer starts at chunk 0", pos, "chunkIndex is 0 at creation and only incremented by Write",
+			fmt.Sprintf("a writer can start past chunk 0 (%s): an update then leaves the entry's earlier chunks in place - the entry decodes as old values followed by the new ones, and Encoder.Close only trims chunks after the last one written", strings.Join(bad, "; ")), nil)
+	}
+
 }
